@@ -94,6 +94,25 @@ Theorem C18_disable_all_semantics : forall (es : list (entry unit)) mp p en dis 
 Proof. exact (@direct_disable_all unit). Qed.
 Print Assumptions C18_disable_all_semantics.
 
+(* is_error_code_enabled_anywhere is an upper bound of the per-module lookups (a code enabled for some
+   module -- by an explicit setting or by its default -- is enabled "anywhere"), and claims nothing else *)
+Theorem C18_enabled_somewhere_enabled_anywhere : forall (d : bool) (stored : list (inst bool)) mp,
+  get_value_for_no_default d stored mp = Some true -> enabled_anywhere d stored = true.
+Proof. exact enabled_somewhere_enabled_anywhere. Qed.
+Print Assumptions C18_enabled_somewhere_enabled_anywhere.
+
+Theorem C18_enabled_anywhere_sources : forall (d : bool) (stored : list (inst bool)),
+  enabled_anywhere d stored = true -> d = true \/ exists i, In i stored /\ value i = true.
+Proof. exact enabled_anywhere_sources. Qed.
+Print Assumptions C18_enabled_anywhere_sources.
+
+(* the same, end to end over the parser model: whatever the files and the command line say, a code
+   enabled for some module path is enabled "anywhere" *)
+Theorem C18_enabled_for_a_module_enabled_anywhere : forall files cli d mp v,
+  effective true files cli d mp = Some (Some v) -> v <> 0%Z -> effective_anywhere files cli d = Some true.
+Proof. exact enabled_for_a_module_enabled_anywhere. Qed.
+Print Assumptions C18_enabled_for_a_module_enabled_anywhere.
+
 Example C18_nonvacuous :
   effective false ex_files [] 0 [1%N; 2%N; 3%N] = Some (Some 9%Z) /\
   effective false ex_files [] 0 [1%N; 4%N] = Some (Some 8%Z) /\
